@@ -142,7 +142,7 @@ func randomAccSeq(r *rng, format string, maxDepth int) string {
 			for i := 0; i < n; i++ {
 				if r.chance(1, 30) {
 					toks = append(toks, scalars[r.intn(len(scalars))])
-				} else if format == "json" && !r.chance(1, 10) {
+				} else if (format == "json" || format == "jsoni") && !r.chance(1, 10) {
 					toks = append(toks, keys[r.intn(3)])
 				} else {
 					toks = append(toks, keys[r.intn(len(keys))])
@@ -166,7 +166,7 @@ func randomAccSeq(r *rng, format string, maxDepth int) string {
 }
 
 func genAcc(tier string, seed uint64) {
-	formats := []string{"cbor", "json", "pretty"}
+	formats := []string{"cbor", "json", "pretty", "jsoni"}
 	fullLen, smallLen, nRandom, depth := 3, 5, 3000, 12
 	if tier == "thorough" {
 		fullLen, smallLen, nRandom, depth = 4, 6, 100000, 40
@@ -177,7 +177,7 @@ func genAcc(tier string, seed uint64) {
 	}
 	r := &rng{s: seed}
 	for i := 0; i < nRandom; i++ {
-		f := formats[r.intn(3)]
+		f := formats[r.intn(len(formats))]
 		emit("acc %s %s", f, randomAccSeq(r, f, 2+r.intn(depth)))
 	}
 	// very deep nesting
